@@ -12,6 +12,11 @@
 (*   C29  help text wrapping; C30 numeric input                            *)
 (***************************************************************************)
 EXTENDS UI, BV, TraceKit
+\* The judgement of a command is a chain of classes (the first disagreement is the verdict).  A check that owns only
+\* some classes sets Focus to them, so that a disagreement of another class in the same event cannot hide its own
+\* ({} = all).  Crashes always end the judgement of a session.
+CONSTANT Focus
+On(c) == Focus = {} \/ c \in Focus
 VARIABLES sh, l, j, bad
 vars == <<sh, l, j, bad>>
 
@@ -23,7 +28,7 @@ ProjOf(ev) == [p \in 1..Len(ev.proj) |-> [begin |-> ev.proj[p].beginhex,
 
 Blocks4(ev) == [p \in 1..Len(ev.proj) |-> [beginoff |-> ev.proj[p].beginoff, n |-> Len(ev.proj[p].ins)]]
 StateOf(ev) == [live |-> TRUE, mode |-> ev.modename, depth |-> ev.depth, haslist |-> ev.haslist, stack |-> <<ev.modename>>,
-                listing |-> Unmarked(ev.listing), cursor |-> ev.cursor,
+                listing |-> Unmarked(ev.listing), cursor |-> ev.cursor, marks |-> MarksOf(ev.listing),
                 hasmem |-> ev.hasmem, memrows |-> ev.memrows, memcur |-> ev.memcur, stored |-> <<>>, memknown |-> FALSE]
 
 \* ---- C23: listing = fresh rendering = expected structure ---------------------
@@ -38,6 +43,17 @@ Cmd(ev) == IF Len(ev.toks) = 0 THEN "" ELSE ev.toks[1]
 NavDown == {"down", "d"}  NavUp == {"up", "u"}  NavGoto == {"goto", "g"}
 NavEntry == {"entrypoint", "entry"}  NavFind == {"find", "f", "/"}
 MoveCmd == {"move", "mv", "m"}
+
+BoundsCmd == {"bounds", "b"}
+BoundsOf(ev) == [p \in 1..Len(ev.proj) |-> [lo |-> ev.proj[p].lo, up |-> ev.proj[p].up]]
+\* expected marks after a disassembler command (beyond the listed properties)
+MarksExpected(ev, st) ==
+    LET c == Cmd(ev) len == Len(st.listing) IN
+    IF c \in MoveCmd /\ Len(ev.args) = 2 /\ NumOk(ev.args[1]) /\ NumOk(ev.args[2])
+      THEN MarksAfterMove(st.marks, len, ev.args[1].v, ev.args[2].v, ev.outcome = "executed")
+    ELSE IF c \in BoundsCmd /\ Len(ev.args) = 1 /\ NumOk(ev.args[1])
+      THEN MarksAfterBounds(st.marks, st.listing, BoundsOf(ev), ev.args[1].v)
+    ELSE st.marks
 
 \* expected navigation result in the disassembler, or [known |-> FALSE]
 NavExpected(ev, st) ==
@@ -59,26 +75,30 @@ JudgeCmd(ev, st) ==
     ELSE IF ev.outcome = "quit" /\ ev.depth = 0 THEN Pass(NoState)
     ELSE Let1([StateOf(ev) EXCEPT !.stack = ModeAfter(st.stack, ev.toks, st.haslist /\ st.listing[st.cursor + 1].kind = "instr")], LAMBDA s2 :
       \* C23
-      IF ListingProblem(ev) # "" THEN Fail(ListingProblem(ev), Listing(ProjOf(ev)), Unmarked(ev.listing), s2)
-      ELSE IF st.mode = "app" /\ Cmd(ev) \in MoveCmd /\ ev.outcome = "error" /\ Unmarked(ev.listing) # st.listing
+      IF ListingProblem(ev) # "" /\ On(ListingProblem(ev)) THEN Fail(ListingProblem(ev), Listing(ProjOf(ev)), Unmarked(ev.listing), s2)
+      ELSE IF On("rejectedchanged") /\ st.mode = "app" /\ Cmd(ev) \in MoveCmd /\ ev.outcome = "error" /\ Unmarked(ev.listing) # st.listing
         THEN Fail("rejectedchanged", st.listing, Unmarked(ev.listing), s2)
       \* the mode stack (C22: every line is executed in the mode the model says)
-      ELSE IF ev.depth # Len(ModeAfter(st.stack, ev.toks, st.haslist /\ st.listing[st.cursor + 1].kind = "instr"))
-              \/ (ev.depth > 0 /\ ev.modename # ModeAfter(st.stack, ev.toks, st.haslist /\ st.listing[st.cursor + 1].kind = "instr")[ev.depth])
+      ELSE IF On("modestack") /\
+              (ev.depth # Len(ModeAfter(st.stack, ev.toks, st.haslist /\ st.listing[st.cursor + 1].kind = "instr"))
+              \/ (ev.depth > 0 /\ ev.modename # ModeAfter(st.stack, ev.toks, st.haslist /\ st.listing[st.cursor + 1].kind = "instr")[ev.depth]))
         THEN Fail("modestack", ModeAfter(st.stack, ev.toks, st.haslist /\ st.listing[st.cursor + 1].kind = "instr"),
                   [depth |-> ev.depth, mode |-> ev.modename], s2)
       \* emulator mode: the cursor follows the emulated instruction pointer
-      ELSE IF ev.modename = "emulate" /\ ev.hasip /\ ev.haslist /\ ev.ipoff >= 0
+      ELSE IF On("ipcursor") /\ ev.modename = "emulate" /\ ev.hasip /\ ev.haslist /\ ev.ipoff >= 0
               /\ LineOfOffset(Unmarked(ev.listing), Blocks4(ev), ev.ipoff) >= 0
               /\ ev.cursor # LineOfOffset(Unmarked(ev.listing), Blocks4(ev), ev.ipoff)
         THEN Fail("ipcursor", LineOfOffset(Unmarked(ev.listing), Blocks4(ev), ev.ipoff), ev.cursor, s2)
+      \* line marks
+      ELSE IF On("marks") /\ st.mode = "app" /\ st.haslist /\ ev.modename = "app" /\ MarksOf(ev.listing) # MarksExpected(ev, st)
+        THEN Fail("marks", MarksExpected(ev, st), MarksOf(ev.listing), s2)
       \* C31
       ELSE IF st.mode = "app" /\ st.haslist
         THEN Let1(NavExpected(ev, st), LAMBDA nx :
           IF ~nx.known THEN Pass(s2)
-          ELSE IF ev.cursor # nx.cursor THEN Fail("cursor", [ok |-> nx.ok, cursor |-> nx.cursor], [outcome |-> ev.outcome, cursor |-> ev.cursor], s2)
-          ELSE IF ~nx.ok /\ Cmd(ev) \notin NavFind /\ ev.outcome # "error" THEN Fail("noerror", "error", ev.outcome, s2)
-          ELSE IF nx.ok /\ ev.outcome # "executed" THEN Fail("navfailed", "executed", ev.outcome, s2)
+          ELSE IF On("cursor") /\ ev.cursor # nx.cursor THEN Fail("cursor", [ok |-> nx.ok, cursor |-> nx.cursor], [outcome |-> ev.outcome, cursor |-> ev.cursor], s2)
+          ELSE IF On("noerror") /\ ~nx.ok /\ Cmd(ev) \notin NavFind /\ ev.outcome # "error" THEN Fail("noerror", "error", ev.outcome, s2)
+          ELSE IF On("navfailed") /\ nx.ok /\ ev.outcome # "executed" THEN Fail("navfailed", "executed", ev.outcome, s2)
           ELSE Pass(s2))
       ELSE Pass(s2))
 
